@@ -82,6 +82,7 @@ class Model:
     def __init__(self, prog, until=None, interacting=None, hand_times=()):
         if interacting is not None:
             self.INTERACTING = set(interacting)
+        self.recent = []      # (time, clock, interacted) of recent steps
         self.hand_times = list(hand_times)
         self.hand_calls = 0
         self.prog = prog
@@ -356,6 +357,20 @@ class Model:
                         <= self.WINDOW and (self.interacts(best['r']) or
                                             self.interacts(e['r'])):
                     self.simultaneous = True
+            # ... also against steps that were performed already (their
+            # queue entries are gone): a step of another clock performed
+            # less than the window ago may, in real time, still be waiting
+            # for its late thread
+            acts = self.interacts(best['r'])
+            for t0, c0, acted0 in self.recent:
+                # (a task left behind by a beats jump is performed at once
+                # *because of* the step that jumped: no ambiguity there)
+                if c0 != best['clock'] and phys - t0 <= self.WINDOW and (
+                        acts or acted0) and not t < phys:
+                    self.simultaneous = True
+            self.recent = [x for x in self.recent
+                           if phys - x[0] <= self.WINDOW]
+            self.recent.append((phys, best['clock'], acts))
             self.queue.remove(best)
             self.now = phys
             self.last_event = max(self.last_event, t)
@@ -369,7 +384,7 @@ class Model:
         return self
 
     simultaneous = False
-    WINDOW = F(1, 32)
+    WINDOW = F(1, 64)     # the largest wake-up latency the simulation injects
     # ops by which a routine changes what other routines observe; two
     # routines that only log / wait / send / wait on conditions do not
     # influence one another, whatever their relative order
